@@ -586,6 +586,11 @@ func (en *DefaultEngine) Flush(ctx context.Context, w io.Writer) (int, error) {
 	r, err := en.vm.Render(ctx)
 	if err != nil {
 		if len(en.exit) == 0 {
+			if en.exiting {
+				// the session has ended even if its last page cannot be shown
+				en.reset(ctx)
+				en.exiting = false
+			}
 			return 0, err
 		}
 	}
